@@ -27,18 +27,45 @@ Definition sortN (l : list N) := fold_right insertN [] l.
 Fixpoint listN_eqb (a b : list N) : bool :=
   match a, b with [], [] => true | x :: a', y :: b' => (x =? y) && listN_eqb a' b' | _, _ => false end.
 
-Record stepobs := mkStep { sev : ev; sobs : list oobs }.
+(* a step: one event, or several concurrent ones ([srace] non-empty: racing CONNECTs on one identifier,
+   an abrupt close racing with them, a timer deadline racing with a CONNECT).  Concurrent events must
+   be explained by SOME order of them (linearizability against the sequential model): every order is
+   tried and every state reached by an order whose outputs equal the observed ones is carried on.
+   [sign]: connection whose CONNACK / closure / deliveries cannot be observed or attributed (closed by
+   its client while being taken over, or gone before the CONNACK could be written) — they are left
+   out on both sides. *)
+Record stepobs := mkStep { sev : ev; sobs : list oobs; srace : list ev; sign : N }.
 Record case := mkCase { pre : bool; steps : list stepobs; ran : bool }.
 
-Fixpoint check (s : st) (ss : list stepobs) : bool :=
-  match ss with
-  | [] => true
-  | x :: r =>
-      let '(s1, o) := step s (sev x) in
-      listN_eqb (sortN (map (fun y => okey (enc y)) o)) (sortN (map okey (sobs x))) && check s1 r
+Fixpoint inserts {A} (x : A) (l : list A) : list (list A) :=
+  match l with [] => [[x]] | y :: r => (x :: l) :: map (cons y) (inserts x r) end.
+Fixpoint perms {A} (l : list A) : list (list A) :=
+  match l with [] => [[]] | x :: r => flat_map (inserts x) (perms r) end.
+
+Fixpoint run_cat (s : st) (es : list ev) : st * list out :=
+  match es with
+  | [] => (s, [])
+  | e :: r => let '(s1, o) := step s e in let '(s2, os) := run_cat s1 r in (s2, o ++ os)
   end.
 
-Definition case_ok (c : case) : bool := ran c && check (init (pre c)) (steps c).
+Definition keep (ign : N) (o : oobs) : bool :=
+  let '(k, a, _, _) := o in negb (((k =? 1) || (k =? 2) || (k =? 3)) && (a =? ign) && negb (ign =? 0)).
+
+Definition same_outputs (ign : N) (o : list out) (obs : list oobs) : bool :=
+  listN_eqb (sortN (map okey (filter (keep ign) (map enc o)))) (sortN (map okey (filter (keep ign) obs))).
+
+Definition nexts (cands : list st) (x : stepobs) : list st :=
+  flat_map (fun s =>
+    flat_map (fun p => let '(s1, o) := run_cat s p in if same_outputs (sign x) o (sobs x) then [s1] else [])
+             (perms (sev x :: srace x))) cands.
+
+Fixpoint check (cands : list st) (ss : list stepobs) : bool :=
+  match ss with
+  | [] => match cands with [] => false | _ => true end
+  | x :: r => match nexts cands x with [] => false | n => check n r end
+  end.
+
+Definition case_ok (c : case) : bool := ran c && check [init (pre c)] (steps c).
 
 Fixpoint mismatches_from (i : nat) (cs : list case) : list nat :=
   match cs with
@@ -47,6 +74,13 @@ Fixpoint mismatches_from (i : nat) (cs : list case) : list nat :=
   end.
 Definition mismatches := mismatches_from 0.
 
-(* debugging aid *)
+(* debugging aid: the model's outputs along the first explaining order of every step *)
 Fixpoint trace (s : st) (ss : list stepobs) : list (list oobs) :=
-  match ss with [] => [] | x :: r => let '(s1, o) := step s (sev x) in map enc o :: trace s1 r end.
+  match ss with
+  | [] => []
+  | x :: r =>
+      match nexts [s] x with
+      | s1 :: _ => [(0, 0, 0, 0)] :: trace s1 r
+      | [] => map (fun p => (9, 9, 9, 9) :: map enc (snd (run_cat s p))) (perms (sev x :: srace x))
+      end
+  end.
